@@ -94,6 +94,17 @@ example : ∃ new, WF (mkCtx exS {}).st ∧
   ⟨(parseJsonRpc {} (mkCtx exS {}) 1 (mkReq "remove" [0x75])).1.out, exS_wf,
    by simp only [mkCtx, List.append_nil], exists_errSend_of_any (by decide +kernel)⟩
 
+/-- Handlers only append: the output after one request object is the output before it with the new
+    observations in front, so the `new` of `error_means_unchanged` always exists.  Combined form. -/
+theorem error_means_unchanged_ex (cfg : Config) (x : Ctx) (c : Nat) (req : Json) (hwf : WF x.st) :
+    ∃ new, (parseJsonRpc cfg x c req).1.out = new ++ x.out ∧
+      ((∃ c' j b, Obs.send c' j b ∈ new ∧ (j.getItem (k "error")).isSome = true) →
+        absElems (parseJsonRpc cfg x c req).1.st = absElems x.st) := by
+  obtain ⟨new, hnew⟩ := parseJsonRpc_ext cfg x c req
+  exact ⟨new, hnew, error_means_unchanged cfg x c req hwf new hnew⟩
+
+example : WF (mkCtx exS {}).st := exS_wf
+
 /-- Handler level, covering requests that cannot be answered (no id, or an id that is neither
     string nor number): the abstraction changes only if the handler's answer is the success answer
     (which is "no answer" for such requests) — every refusal leaves it unchanged. -/
